@@ -37,7 +37,7 @@ CATALOGUE = [
     ("markup-spans-sorted-by-value", "C04", "markup.py", "text.spans = [span for _, span in sorted(spans)]", "text.spans = sorted(span for _, span in spans)"),
     # ---- C05
     ("append-no-length-update", "C05", "text.py", "                    self._spans.append(Span(offset, offset + text_length, style))\n                self._length += text_length", "                    self._spans.append(Span(offset, offset + text_length, style))\n                self._length += text_length if (text.strip() or style) else 0"),
-    ("pad_left-no-span-shift", "C05", "text.py", "            self.plain = f\"{character * count}{self.plain}\"\n            _Span = Span\n            self._spans[:] = [\n                _Span(start + count, end + count, style)", "            self.plain = f\"{character * count}{self.plain}\"\n            _Span = Span\n            self._spans[:] = [\n                _Span(start + count, end + count - (count > 3), style)"),
+    ("pad_left-no-span-shift", "C05", "text.py", "            self.plain = f\"{pad_characters}{self.plain}\"\n            _Span = Span\n            self._spans[:] = [\n                _Span(start + count, end + count, style)", "            self.plain = f\"{pad_characters}{self.plain}\"\n            _Span = Span\n            self._spans[:] = [\n                _Span(start + count, end + count - (count > 3), style)"),
     ("init-length-unstripped", "C05", "text.py", "self._length: int = len(sanitized_text)", "self._length: int = len(text)"),
     ("divide-order-by-start", "C05", "text.py", "            line_spans.sort(key=itemgetter(0))", "            line_spans.sort(key=lambda item: item[1].start)"),
     # ---- C02
@@ -47,12 +47,14 @@ CATALOGUE = [
     ("no-reset-code", "C03", "style.py", "rendered = f\"\\x1b[{attrs}m{text}\\x1b[0m\" if attrs else text", "rendered = f\"\\x1b[{attrs}m{text}\\x1b[0m\" if attrs and self._color else (f\"\\x1b[{attrs}m{text}\" if attrs else text)"),
     ("link-not-closed-on-legacy-flag", "C03", "style.py", "if self._link and not legacy_windows:", "if self._link:"),
     ("ansi-cache-ignores-system", "C03", "style.py", "if self._ansi is None or self._ansi[0] != color_system:", "if self._ansi is None:"),
-    ("control-written-to-non-terminal", "C03", "console.py", "elif not (not_terminal and is_control):", "elif not (not_terminal and is_control and len(text) > 3):"),
+    ("control-written-to-non-terminal", "C03", "console.py", "            if not_terminal and is_control:\n                continue", "            if not_terminal and is_control and len(text) <= 3:\n                continue"),
     # ---- C19
     ("decoder-bg-bright-off-by-one", "C19", "ansi.py", "    103: \"on color(11)\",", "    103: \"on color(12)\","),
-    ("fileproxy-drops-empty-lines", "C19", "file_proxy.py", "                lines.append(\"\".join(buffer) + line)", "                if buffer or line:\n                    lines.append(\"\".join(buffer) + line)"),
-    ("fileproxy-flush-markup", "C19", "file_proxy.py", "            self.__console.print(output, markup=False, emoji=False, highlight=False)\n            del buffer[:]", "            self.__console.print(\"\".join(buffer))\n            del buffer[:]"),
-    ("live-keeps-stdout-proxy-alive", "C19", "live.py", "                sys.stdout = FileProxy(self.console, sys.stdout)", "                self._stdout_proxy = sys.stdout = FileProxy(self.console, sys.stdout)"),
+    ("fileproxy-drops-empty-lines", "C19", "file_proxy.py", "                    lines.append(\"\".join(buffer) + line)", "                    if buffer or line:\n                        lines.append(\"\".join(buffer) + line)"),
+    ("fileproxy-flush-markup", "C19", "file_proxy.py", "        if output is not None:\n            self.__console.print(output, markup=False, emoji=False, highlight=False)", "        if output is not None:\n            self.__console.print(output.plain)"),
+    # (live-keeps-stdout-proxy-alive was retired: since fix 60dbc54 stop() flushes the proxies itself, so keeping one alive
+    #  past stop() no longer withholds its pending line - the mutation became equivalent)
+    ("progress-stop-does-not-flush-redirect", "C10", "progress.py", "                self._flush_redirected_io()", "                pass"),
     ("progress-redirect-swaps-streams", "C19", "progress.py", "                sys.stderr = FileProxy(self.console, sys.stderr)", "                sys.stderr = sys.stdout if self._redirect_stdout else FileProxy(self.console, sys.stderr)"),
     # ---- C20
     ("pop-does-not-rebind", "C20", "theme.py", "        self._entries.pop()\n        self.get = self._entries[-1].get", "        self._entries.pop()\n        self.get = self._entries[-1].get if len(self._entries) > 1 else self.get"),
